@@ -192,7 +192,12 @@ func TypeName(v Value) string {
 		return "boolean"
 	case float64, *ONum:
 		return "number"
-	case string, *OStr:
+	case *OStr:
+		if x, _ := v.(*OStr); x.Kind == "any" {
+			unspecified("type of a value that no property fixes")
+		}
+		return "string"
+	case string:
 		return "string"
 	case *Table:
 		return "table"
